@@ -6,6 +6,14 @@ CLAIMED = {
              text="Theorems (coq/props/C18.v) over the selection classes as *regenerated from the source on every run*: membership of every address of any length equals the Boolean combination of the operands' memberships, sub-selection commutes, smart constructors preserve membership. Tie: translator + 3000 (quick) / exhaustive depth<=1 + 20000 (thorough) term x address cases compared inside Coq with the implementation's answers.",
              note="Trusted: Coq kernel/vm_compute; harness/translate_sel.py (validated by the correspondence run); pinned glue methods transcribed by hand in coq/model/Sel.v. All theorems closed under the global context.",
              ref="5/C18"),
+ "C19": dict(engine="A-mask", technique="Coq proof over a hand-written Gallina model of Mask/FlagOp with staging tags; vm_compute correspondence",
+             text="Theorems (coq/props/C19.v): truth tables of |, ^, ~, build (AND), flatten cases, unmask(default), and staging erasure (Python-bool vs array flags give the same observed flag and valid values) for scalar flags in every staging and arbitrary value pytrees. Tie: every stage x flag combination, all pairs of 2-element vector flags, ill-shaped combinations as errors, compared inside Coq with the implementation; direct oracle = the documented truth tables in numpy (also under jit in thorough).",
+             note="Trusted: Coq kernel/vm_compute; the hand-written model coq/model/MaskAlg.v,Flag.v is tied only by the correspondence run; vectorised-flag tables are checked by correspondence + oracle, not by an elementwise theorem; Diff-wrapped flags and __getitem__ are not modelled. All theorems closed under the global context.",
+             ref="5/C19"),
+ "C20": dict(engine="A-mask", technique="Coq proof over a hand-written Gallina model of FlagOp/tree_choose/multi_switch; vm_compute correspondence",
+             text="Theorems (coq/props/C20.v): FlagOp and/or/xor/not = Boolean logic on observed flags with numpy broadcasting, staging irrelevance, where/cond select, tree_choose = element at idx mod n with dtype join (static and array index agree), multi_switch = branch at the clamped index with zero placeholders, wrap/clamp agree exactly in range (refuted outside with a witness). Tie: exhaustive flag pairs, operands, every index in [-n-1,2n+1] for n<=4 as Python int and array.",
+             note="Trusted: Coq kernel/vm_compute; hand-written model coq/model/Flag.v tied by the correspondence run; leaves are scalars or 1-d arrays of one common shape; lax/jnp error behaviour is modelled as None. All theorems closed under the global context.",
+             ref="5/C20"),
 }
 ALL = ["C%02d" % i for i in range(1, 39)]
 NA_REASON = "not yet covered by a theorem and tie in this round's development (see DESIGN.md section 7); no other technique is substituted"
